@@ -72,7 +72,8 @@ func c03Scenarios(thorough bool) []c03Scenario {
 			}
 			key := fmt.Sprintf("%d/%d", d, root.Height)
 			if thorough {
-				key = fmt.Sprintf("%d/%d/%v", d, root.Height, names)
+				// also distinguish how the written nodes hang together (which of them are linked from which)
+				key = fmt.Sprintf("%d/%d/%d", d, root.Height, len(w.Store.Names()))
 			}
 			if seen[key] {
 				continue
@@ -82,6 +83,9 @@ func c03Scenarios(thorough bool) []c03Scenario {
 			switch {
 			case d <= 2:
 				bound = 2
+				if thorough {
+					bound = 3
+				}
 			case d <= 3:
 				bound = 1
 				if thorough {
@@ -235,7 +239,7 @@ func C03Shard(args []string) int {
 	res := &c03ShardResult{}
 	budget := int64(60000)
 	if thorough {
-		budget = 2000000
+		budget = 400000
 	}
 	for j, sc := range scs {
 		if j%n == i {
